@@ -311,6 +311,17 @@ def rule_bases(ctx, R):
         errs = [bi for bi, blk in enumerate(b.blocks) for st in blk["stmts"] if st["k"] == "assign" and st["r"]["k"] == "agg" and "BaseSizeError" in str(st["r"].get("variant", "")) + str(st["r"].get("adt", "")) + str(st["r"])[:200]]
         ok = len(inside) == 1 and len(outside) == 1 and bool(errs) and all(not reaches_without(cfg_, [0], eb, cut_edges=outside) for eb in errs) and not any(reaches_without(cfg_, [outside[0][1]], x) for x in [bi for bi, t in b.calls() if callee_name(t["f"], fb).endswith("BigNum::new")])
         R.check(ok, "bases:reject:%s" % nm, "%s returns the base error exactly for bases outside the range (and does no work for them)" % nm, b.span)
+    # the text form of a number is decimal on both sides: Display writes base 10 and from_string reads base 10
+    dec = {}
+    for nm, callee in (("<number::big_number::BigNum as core::fmt::Display>::fmt", B + "to_string_base"), (B + "from_string", B + "from_string_base")):
+        cands = [n for n in fb.bodies if n == nm or (nm.startswith("<") and n.endswith("BigNum as core::fmt::Display>::fmt"))]
+        for n in cands[:1]:
+            b_ = fb.bodies[n]
+            R.analyse(n)
+            r_ = Roles(b_, fb, param_roles=PR(b_))
+            cs = [r_.of_operand(t["args"][1], bi) for bi, t in b_.calls() if callee_name(t["f"], fb) == callee]
+            dec[callee.rsplit("::", 1)[-1]] = cs
+    R.check(dec.get("to_string_base") == ["K10"] and dec.get("from_string_base") == ["K10"], "bases:decimal", "Display writes and from_string reads the same base, ten: %s" % dec)
     R.check(got.get("to_string_base") == got.get("from_string_base") and got.get("to_string_base") is not None and got["to_string_base"][1] == 36 and got["to_string_base"][0] in (1, 2), "bases:agree", "writer and reader accept the same base range ending at 36: %s" % got)
 
 
